@@ -82,6 +82,7 @@ type HarnessSpec struct {
 	Opts    ExecOpts `json:"opts"`
 	MaxPaths int     `json:"max_paths"`
 	Note    string   `json:"note"`
+	TimeoutMs int    `json:"solver_timeout_ms"`
 	NoNative bool    `json:"no_native"` // virtual-time harness: cannot be replayed against the real clock
 }
 
@@ -122,6 +123,9 @@ func Explore(P *Program, pkg *ssa.Package, spec HarnessSpec, nworkers int, solve
 	if fn == nil {
 		st.Errors = append(st.Errors, "harness function not found: "+spec.Func)
 		return st
+	}
+	if spec.TimeoutMs > 0 {
+		solverTimeoutMs = spec.TimeoutMs
 	}
 	maxPaths := spec.MaxPaths
 	if maxPaths == 0 {
@@ -301,7 +305,7 @@ func newExec(P *Program, wk *worker, spec HarnessSpec, prefix []int) *Exec {
 	// virtual clock starts at a fixed positive instant
 	// (a fixed origin: only differences of instants matter to the code under test,
 	// and a constant keeps the solver's time-ordering queries cheap)
-	e.now = wk.ctx.BVConst(64, 1700000000*1000000000)
+	e.now = e.intConst(64, 1700000000*1000000000)
 	return e
 }
 
